@@ -75,17 +75,33 @@ class Query:
         return fs
 
     def resolve_loops(self):
-        """expand unwind_fn into unwindset entries using cbmc --show-loops (cheap: front end only)"""
+        """expand unwind_fn into unwindset entries using cbmc --show-loops (cheap: front end only).
+        unwind_fn: {function name or prefix*: bound | [[regex on the loop head's source line, bound], ...]}"""
         if self._resolved or not self.unwind_fn:
             return
         self._resolved = True
         cmd = ["cbmc"] + self.dflags() + self.files() + ["--show-loops"]
         rc, out, err, _, to = run_proc(cmd, 120, 8)
-        for m in re.finditer(r"^Loop ([A-Za-z_][A-Za-z0-9_$]*)\.(\d+):", out, re.M):
-            fn, idx = m.group(1), m.group(2)
+        cache = {}
+        for m in re.finditer(r"^Loop ([A-Za-z_][A-Za-z0-9_$]*)\.(\d+):\n\s+file (\S+) line (\d+)", out, re.M):
+            fn, idx, fname, line = m.group(1), m.group(2), m.group(3), int(m.group(4))
             for key, k in self.unwind_fn.items():
                 if fn == key or (key.endswith("*") and fn.startswith(key[:-1])):
-                    self.unwindset.setdefault("%s.%s" % (fn, idx), k)
+                    if isinstance(k, int):
+                        self.unwindset.setdefault("%s.%s" % (fn, idx), k)
+                    else:
+                        if fname not in cache:
+                            try:
+                                cache[fname] = open(fname).read().splitlines()
+                            except Exception:
+                                cache[fname] = []
+                        src = cache[fname]
+                        text = " ".join(src[max(0, line - 1):line + 1])
+                        for rx, b in k:
+                            if re.search(rx, text):
+                                self.unwindset.setdefault("%s.%s" % (fn, idx), b)
+                                break
+                    break
 
     def cbmc_cmd(self, extra=(), gb=None):
         self.resolve_loops()
@@ -102,6 +118,48 @@ class Query:
         cmd += self.extra
         cmd += list(extra)
         return cmd
+
+
+class PyQuery:
+    """A driver-side obligation decided by a python callable (e.g. a symbol-table audit of the goto program).
+    fn() -> dict(verdict='held'|'violated'|'inconclusive', why=str, failed=[...], n_props=int, n_ok=int)"""
+
+    def __init__(self, name, fn, weight=1, note=""):
+        self.name = name; self.fn = fn; self.weight = weight; self.kf = []; self.harness = "(driver)"; self.units = []
+        self.defs = {}; self.note = note
+
+    def clone(self, **kw):
+        return self
+
+
+def static_objects(units, defs=()):
+    """static-lifetime objects of the library units, from the goto symbol table (cbmc --show-symbol-table --json-ui).
+    Returns (objects, error): objects = [(name, is_const, file)]"""
+    cmd = ["cbmc", "-I", SRC, "-D__BEGIN_DECLS=", "-D__END_DECLS=", "-D" + GUARD, "-DNDEBUG"] + list(defs) + \
+          [os.path.join(SRC, u) for u in units] + ["--show-symbol-table", "--json-ui"]
+    rc, out, err, _, to = run_proc(cmd, 300, 8)
+    try:
+        data = json.loads(out)
+    except Exception as e:
+        return None, "unparsable symbol table: %s" % e
+    objs = []
+    for e in data:
+        if isinstance(e, dict) and "symbolTable" in e:
+            for name, sym in e["symbolTable"].items():
+                if not sym.get("isStaticLifetime") or sym.get("isType") or sym.get("isMacro"):
+                    continue
+                t = sym.get("type", {})
+                if t.get("id") == "code":
+                    continue
+                loc = sym.get("location", {}).get("file", "")
+                if not loc.startswith(SRC):
+                    continue
+                if name.startswith("__CPROVER"):
+                    continue
+                pt = sym.get("prettyType", "")
+                const = "#constant" in t.get("namedSub", {}) or pt.startswith("const ")
+                objs.append((name, bool(const), loc, pt))
+    return objs, None
 
 
 def _limit(mem_gb):
@@ -275,18 +333,23 @@ def extract_inputs(trace, names):
 
 # ------------------------------------------------------------------ native replay
 def native_build(q, outdir, sanitize=True):
-    exe = os.path.join(outdir, "replay_%s" % ("san" if sanitize else "rel"))
+    """sanitize: True = gcc ASan+UBSan, False = gcc -O2 (the pinned flags), "msan" = clang MemorySanitizer (uninitialised reads)"""
+    tag = "msan" if sanitize == "msan" else ("san" if sanitize else "rel")
+    exe = os.path.join(outdir, "replay_%s" % tag)
     units = q.native_units if q.native_units is not None else q.units
-    cmd = ["gcc", "-std=gnu11", "-w", "-DVP_NATIVE"] + q.dflags(native=True)
+    cc = "clang-14" if sanitize == "msan" else "gcc"
+    cmd = [cc, "-std=gnu11", "-w", "-DVP_NATIVE"] + q.dflags(native=True)
     cmd += ["-include", os.path.join(COMMON, "vp_native_alloc.h")]
-    if sanitize:
+    if sanitize == "msan":
+        cmd += ["-O0", "-g", "-fsanitize=memory", "-fno-omit-frame-pointer"]
+    elif sanitize:
         cmd += ["-O0", "-g", "-fsanitize=address,undefined", "-fno-sanitize-recover=undefined", "-fno-omit-frame-pointer"]
     else:
         cmd += ["-O2", "-g"]
     cmd += [os.path.join(VERIF, "harness", q.harness), os.path.join(COMMON, "vp_native_rt.c")]
     cmd += [os.path.join(SRC, u) for u in units]
     cmd += ["-lm", "-o", exe]
-    rc, out, err, _, _ = run_proc(cmd, 120, mem_gb=8)
+    rc, out, err, _, _ = run_proc(cmd, 180, mem_gb=64 if sanitize == "msan" else 8)
     if rc != 0:
         return None, err
     return exe, ""
@@ -297,6 +360,7 @@ def native_run(exe, replay_txt, timeout=60):
     env["VP_REPLAY"] = replay_txt
     env["ASAN_OPTIONS"] = "exitcode=42:detect_leaks=0:allocator_may_return_null=1:max_allocation_size_mb=4096"
     env["UBSAN_OPTIONS"] = "halt_on_error=1:exitcode=43:print_stacktrace=1"
+    env["MSAN_OPTIONS"] = "exitcode=44"
     p = subprocess.Popen([exe], stdout=subprocess.PIPE, stderr=subprocess.PIPE, env=env, preexec_fn=os.setsid)
     try:
         out, err = p.communicate(timeout=timeout)
@@ -318,7 +382,7 @@ def native_run(exe, replay_txt, timeout=60):
         verdict = "assume_fail"
     elif rc == 1 and "VP_ASSERT_FAIL" in out:
         verdict = "assert_fail"
-    elif rc in (42, 43) or "AddressSanitizer" in err or "runtime error" in err:
+    elif rc in (42, 43, 44) or "AddressSanitizer" in err or "runtime error" in err or "MemorySanitizer" in err:
         verdict = "sanitizer"
     elif rc < 0:
         verdict = "signal%d" % (-rc)
@@ -368,6 +432,16 @@ def replay_file(path):
 def run_query(q, replay_dir, prop_id):
     """Runs the query; on failures, obtains a trace and replays natively.
     Returns a result dict."""
+    if isinstance(q, PyQuery):
+        t0 = time.time()
+        r = {"name": q.name, "harness": q.harness, "defs": {}, "units": [], "verdict": "inconclusive", "failed": [], "n_props": 1,
+             "n_ok": 0, "reach": True, "stats": {"variables": 1}, "wall_s": 0, "cmd": "(python) " + q.name, "replays": [], "note": q.note}
+        try:
+            r.update(q.fn())
+        except Exception as e:
+            r["why"] = "exception %r" % e
+        r["wall_s"] = round(time.time() - t0, 2)
+        return r
     t0 = time.time()
     r = {"name": q.name, "harness": q.harness, "defs": q.defs, "units": q.units, "verdict": None,
          "failed": [], "n_props": 0, "n_ok": 0, "reach": False, "stats": {}, "wall_s": 0, "cmd": None,
@@ -484,6 +558,14 @@ def _run_query(q, replay_dir, prop_id, r, gbdir):
             if exe_rel:
                 v2, o2, e2 = native_run(exe_rel, path[:-5] + ".inputs")
                 rep["native_release"] = v2
+            if v == "pass" and rep.get("native_release") in (None, "pass"):
+                # nothing trapped: the counterexample may hinge on uninitialised memory, which only MemorySanitizer observes
+                exe_m, _e = native_build(q, tmp, sanitize="msan")
+                if exe_m:
+                    v3, o3, e3 = native_run(exe_m, path[:-5] + ".inputs")
+                    rep["native_msan"] = v3
+                    if v3 == "sanitizer":
+                        v = "sanitizer"; rep["native"] = "sanitizer(msan: use of uninitialised value)"; rep["native_out"] = (o3 + e3)[-1200:]
             if v in ("assert_fail", "sanitizer", "hang") or v.startswith("signal") or rep.get("native_release") in ("assert_fail",) or str(rep.get("native_release", "")).startswith("signal"):
                 rep["confirmed"] = True
                 confirmed = True
@@ -560,6 +642,8 @@ def run_check(prop_id, tier, queries, meta, seed=0, only=None, verbose=True):
         # function listing, once per (harness, units, defs that matter)
         seenfn = {}
         for kind, q, k in jobs:
+            if isinstance(q, PyQuery):
+                continue
             key = (q.harness, tuple(q.units))
             if key not in seenfn:
                 seenfn[key] = ex.submit(list_functions, q)
